@@ -76,13 +76,14 @@ theorem lookup_phasesOf (mav : Bool) (cols : List Nat) (haps : List (List Allele
 /-! ## reader and writer in lockstep -/
 
 /-- what the property demands of one output call -/
-def OutOK (c : Cfg) (ph : List (Nat × List Allele)) (r : VRec) (o : OutCall) : Prop :=
+def OutOK (c : Cfg) (ph : List (Nat × List Allele)) (T : List VRec) (r : VRec) (o : OutCall) : Prop :=
   (∀ a, o.gt.count a = r.gt.count a) ∧
-  (o.phased = true → isHet r.gt = true ∧ readerSkips c r = false ∧ lookupPhase ph r.pos = some o.gt)
+  (o.phased = true → isHet r.gt = true ∧ readerSkips c r = false ∧ r ∈ T ∧ lookupPhase ph r.pos = some o.gt)
 
-theorem removeExisting_ok (c : Cfg) (ph : List (Nat × List Allele)) (r : VRec) : OutOK c ph r (removeExisting r) := by
+theorem removeExisting_ok (c : Cfg) (ph : List (Nat × List Allele)) (T : List VRec) (r : VRec) :
+    OutOK c ph T r (removeExisting r) := by
   refine ⟨fun a => ?_, fun h => by simp [removeExisting] at h⟩
-  exact (List.mergeSort_perm _ _).count_eq a
+  exact (isort_perm _ _).count_eq a
 
 /-- the repaired writer skips (before or after its duplicate test) exactly what the reader skips -/
 theorem writer_skips_eq_reader (c : Cfg) (r : VRec) :
@@ -93,29 +94,29 @@ theorem writer_skips_eq_reader (c : Cfg) (r : VRec) :
 position" variables: if the reader's is `p` then the writer's is `p` too, or the sample has no phase or no component
 at `p`.  `hgood`: the phase stored for the position of an accepted row is a rearrangement of that row's heterozygous
 genotype. -/
-theorem writeLoop_ok (c : Cfg) (ph : List (Nat × List Allele)) (comps : Nat → Option Nat) :
+theorem writeLoop_ok (c : Cfg) (ph : List (Nat × List Allele)) (comps : Nat → Option Nat) (T : List VRec) :
     ∀ (recs : List VRec) (rprev wprev : Option Nat) (t : List VRec),
-      readLoop c rprev recs = .ok t →
+      readLoop c rprev recs = .ok t → (∀ r ∈ t, r ∈ T) →
       (∀ p, rprev = some p → wprev = some p ∨ lookupPhase ph p = none ∨ comps p = none) →
       (∀ r ∈ t, ∀ p, lookupPhase ph r.pos = some p → isHet r.gt = true ∧ p.Perm r.gt) →
-      All2 (OutOK c ph) recs (writeLoop true c ph comps wprev recs)
-  | [], _, _, _, _, _, _ => by simp [writeLoop]; exact .nil
-  | r :: rs, rprev, wprev, t, hread, hinv, hgood => by
+      All2 (OutOK c ph T) recs (writeLoop true c ph comps wprev recs)
+  | [], _, _, _, _, _, _, _ => by simp [writeLoop]; exact .nil
+  | r :: rs, rprev, wprev, t, hread, hT, hinv, hgood => by
     unfold readLoop at hread
     unfold writeLoop
     have hsk := writer_skips_eq_reader c r
     by_cases hs : readerSkips c r = true
     · simp only [hs, if_true] at hread
-      have ih := writeLoop_ok c ph comps rs rprev wprev t hread hinv hgood
+      have ih := writeLoop_ok c ph comps T rs rprev wprev t hread hT hinv hgood
       rw [hs] at hsk
       by_cases h1 : writerSkipsMulti true c r = true
-      · simp only [h1, if_true]; exact .cons (removeExisting_ok c ph r) ih
+      · simp only [h1, if_true]; exact .cons (removeExisting_ok c ph T r) ih
       · have h3 : writerSkipsSnv true c r = true := by
           simp only [Bool.not_eq_true] at h1; simpa [h1] using hsk
         simp only [h1, h3, if_true]
         by_cases h2 : (wprev == some r.pos) = true
-        · simp only [h2, if_true]; exact .cons (removeExisting_ok c ph r) ih
-        · simp only [h2]; exact .cons (removeExisting_ok c ph r) ih
+        · simp only [h2, if_true]; exact .cons (removeExisting_ok c ph T r) ih
+        · simp only [h2]; exact .cons (removeExisting_ok c ph T r) ih
     · have hs' : readerSkips c r = false := by simpa using hs
       rw [hs'] at hsk
       have h1 : writerSkipsMulti true c r = false := by
@@ -130,16 +131,16 @@ theorem writeLoop_ok (c : Cfg) (ph : List (Nat × List Allele)) (comps : Nat →
         by_cases hd : (rprev == some r.pos) = true
         · -- the reader skips a duplicated position
           simp only [hd, if_true] at hread
-          have ih := writeLoop_ok c ph comps rs rprev wprev t hread hinv hgood
+          have ih := writeLoop_ok c ph comps T rs rprev wprev t hread hT hinv hgood
           by_cases h2 : (wprev == some r.pos) = true
-          · simp only [h2, if_true]; exact .cons (removeExisting_ok c ph r) ih
+          · simp only [h2, if_true]; exact .cons (removeExisting_ok c ph T r) ih
           · simp only [h2]
             have hrp : rprev = some r.pos := by simpa using hd
             rcases hinv r.pos hrp with hw | hl | hc
             · exact absurd (by simp [hw]) h2
-            · simp only [hl]; exact .cons (removeExisting_ok c ph r) ih
+            · simp only [hl]; exact .cons (removeExisting_ok c ph T r) ih
             · rw [hc]
-              cases lookupPhase ph r.pos <;> exact .cons (removeExisting_ok c ph r) ih
+              cases lookupPhase ph r.pos <;> exact .cons (removeExisting_ok c ph T r) ih
         · simp only [hd] at hread
           by_cases hp : ploidyError c r = true
           · simp [hp] at hread
@@ -149,30 +150,31 @@ theorem writeLoop_ok (c : Cfg) (ph : List (Nat × List Allele)) (comps : Nat →
             | ok t' =>
               simp only [hrec, consOk] at hread
               cases hread
+              have hT' : ∀ x ∈ t', x ∈ T := fun x hx => hT x (List.mem_cons_of_mem _ hx)
               have hgood' : ∀ x ∈ t', ∀ p, lookupPhase ph x.pos = some p → isHet x.gt = true ∧ p.Perm x.gt :=
                 fun x hx => hgood x (List.mem_cons_of_mem _ hx)
               by_cases h2 : (wprev == some r.pos) = true
               · simp only [h2, if_true]
                 have hw : wprev = some r.pos := by simpa using h2
-                exact .cons (removeExisting_ok c ph r)
-                  (writeLoop_ok c ph comps rs (some r.pos) wprev t' hrec (fun p hp' => Or.inl (hp' ▸ hw)) hgood')
+                exact .cons (removeExisting_ok c ph T r)
+                  (writeLoop_ok c ph comps T rs (some r.pos) wprev t' hrec hT' (fun p hp' => Or.inl (hp' ▸ hw)) hgood')
               · simp only [h2]
                 cases hl : lookupPhase ph r.pos with
                 | none =>
-                  exact .cons (removeExisting_ok c ph r)
-                    (writeLoop_ok c ph comps rs (some r.pos) wprev t' hrec
+                  exact .cons (removeExisting_ok c ph T r)
+                    (writeLoop_ok c ph comps T rs (some r.pos) wprev t' hrec hT'
                       (fun p hp' => by cases hp'; exact Or.inr (Or.inl hl)) hgood')
                 | some p =>
                   cases hc : comps r.pos with
                   | none =>
-                    exact .cons (removeExisting_ok c ph r)
-                      (writeLoop_ok c ph comps rs (some r.pos) wprev t' hrec
+                    exact .cons (removeExisting_ok c ph T r)
+                      (writeLoop_ok c ph comps T rs (some r.pos) wprev t' hrec hT'
                         (fun p hp' => by cases hp'; exact Or.inr (Or.inr hc)) hgood')
                   | some comp =>
                     obtain ⟨hhet, hperm⟩ := hgood r (by simp) p hl
                     have hsame : sameGenotype p r.gt = true := sameGenotype_of_perm p r.gt hperm
                     simp only [hsame, Bool.not_true, Bool.false_eq_true, if_false, hhet, if_true]
-                    refine .cons ⟨fun a => hperm.count_eq a, fun _ => ⟨hhet, hs', hl⟩⟩ ?_
-                    exact writeLoop_ok c ph comps rs (some r.pos) (some r.pos) t' hrec (fun p hp' => Or.inl hp') hgood'
+                    refine .cons ⟨fun a => hperm.count_eq a, fun _ => ⟨hhet, hs', hT r (by simp), hl⟩⟩ ?_
+                    exact writeLoop_ok c ph comps T rs (some r.pos) (some r.pos) t' hrec hT' (fun p hp' => Or.inl hp') hgood'
 
 end WhVerif.C15
